@@ -1,6 +1,7 @@
 mod entity;
 mod gen_serve;
 mod histories;
+mod dir_engine;
 mod gen_stream;
 mod negot;
 mod stream_engine;
@@ -119,6 +120,19 @@ fn main() {
                         k += 1;
                         writeln!(cases, "{}", negot::case_line(&id, &c)).unwrap();
                         writeln!(meta, "{}\t{}\t", id, c.class.replace('\t', " ").replace('\n', " ")).unwrap();
+                    });
+                }
+                "C19" => {
+                    drop(emit_serve);
+                    let rt = tokio::runtime::Builder::new_multi_thread().worker_threads(2).enable_all().build().unwrap();
+                    let tree = dir_engine::make_tree();
+                    let base_file = std::fs::File::open(&tree.base).unwrap();
+                    let mut k = 0u64;
+                    dir_engine::gen_c19(&mut rng, thorough, &mut |c: dir_engine::DirCase| {
+                        let id = format!("{}-{}", prop, k);
+                        k += 1;
+                        writeln!(cases, "dir {} {}", id, dir_engine::run(&rt, &tree, &base_file, &c)).unwrap();
+                        writeln!(meta, "{}\t{}\t", id, c.class.replace('\t', " ").replace('\n', " ").replace('\0', "\\0")).unwrap();
                     });
                 }
                 "C20" => {
